@@ -40,7 +40,7 @@ DEGEN = {"dna": set("RYMKBVDHWSN?"), "rna": set("RYMKBVDHWSN?"), "protein": set(
 
 def bounds(tier):
     return {
-        "quick": {"rows": [2], "deep_len": 2, "deep_depth": 2, "shallow_len": 3, "shallow_depth": 1, "moltypes": ["dna"]},
+        "quick": {"rows": [2], "deep_len": 2, "deep_depth": 2, "shallow_len": 3, "filters_len": 4, "shallow_depth": 1, "moltypes": ["dna"]},
         "thorough": {"rows": [2, 3], "deep_len": 2, "deep_len_dna_2rows": 3, "deep_depth": 2, "shallow_len": 4, "shallow_depth": 1, "moltypes": ["dna", "rna", "protein"]},
     }[tier]
 
@@ -479,8 +479,12 @@ def flags(aln, m):
     return ", ".join(f) or "no terminal gap"
 
 
+FILTER_OPS = ("take_positions", "omit_gap_pos", "no_degenerates", "filtered", "rc")  # what selects column blocks (and rc before it)
+
+
 def explore(spec, acc):
     mol, rows0, depth = spec["mol"], dict(spec["rows"]), spec["depth"]
+    only_ops = FILTER_OPS if spec.get("ops") == "filters" else None
     m0 = Model(rows0, mol)
     case0 = {"mol": mol, "rows": list(rows0.items())}
     for array in (False, True):
@@ -502,6 +506,8 @@ def explore(spec, acc):
             nxt = []
             for aln, m, hist in frontier:
                 for op in alphabet(m):
+                    if only_ops and op[0] not in only_ops:
+                        continue
                     acc.transitions += 1
                     acc.case(None, nontrivial=any("-" in s for s in m.rows.values()))
                     r, m2, probs, outcome = step(aln, m, op)
@@ -564,9 +570,52 @@ def initial_rows(mol, nrows, L):
         yield [(NAMES[r], "".join("-" if masks[r][c] else res[r][c] for c in range(L))) for r in range(nrows)]
 
 
+def long_rows():
+    """two rows of more than 2**15 columns: one degenerate column in the middle, gaps behind sequence position 32767"""
+    s1 = "A" * 16000 + "N" + "C" * 16800 + "-" + "G" * 5 + "--" + "T" * 3
+    s2 = "G" * 16000 + "A" + "T" * 16800 + "A" + "-" + "C" * 4 + "AA" + "---"
+    return [("s1", s1), ("s2", s2)]
+
+
+LONG_HISTORIES = [
+    [("no_degenerates", True, 1)],
+    [("omit_gap_pos", 0.4, 1)],
+    [("no_degenerates", True, 1), ("omit_gap_pos", 0.4, 1)],
+    [("rc",), ("no_degenerates", True, 1)],
+    [("slice", 100, None), ("no_degenerates", True, 1), ("rc",)],
+]
+
+
+def check_long(acc):
+    """the position filters on alignments long enough for coordinates beyond 16-bit integers, both classes"""
+    rows0 = dict(long_rows())
+    for hist0 in LONG_HISTORIES:
+        for array in (False, True):
+            cls = "ArrayAlignment" if array else "Alignment"
+            case = {"long": True, "cls": cls, "history": [jsonop(o) for o in hist0], "columns": len(rows0["s1"])}
+            acc.case(case, nontrivial=True)
+            try:
+                aln, m = make_aln(rows0, "dna", array), Model(rows0, "dna")
+            except Exception as e:  # noqa: BLE001
+                acc.fail(f"{cls} construction raised {type(e).__name__} [more than 2**15 columns]", case, {"error": str(e)[:200]})
+                continue
+            for op in hist0:
+                acc.transitions += 1
+                r, m2, probs, outcome = step(aln, m, op)
+                if probs:
+                    acc.fail(f"{type(aln).__name__}.{op_label(op)}: {probs[0][0]} [more than 2**15 columns]", case,
+                             {"problems": [[p[0], str(p[1])[:120]] for p in probs[:2]]})
+                    break
+                if r is None:
+                    break
+                aln, m = r, m2
+            acc.outcome(("long", cls, len(hist0)))
+    acc.sample({"long alignment": True, "columns": len(rows0["s1"]), "histories": [[jsonop(o) for o in h] for h in LONG_HISTORIES]}, "long")
+
+
 def shards(tier, seed):
     b = bounds(tier)
-    out = []
+    out = [{"part": "long"}]
     for mol in b["moltypes"]:
         for nrows in b["rows"]:
             for L in range(1, b["shallow_len"] + 1):
@@ -580,21 +629,35 @@ def shards(tier, seed):
                 nchunks = max(1, min(len(allrows), (len(allrows) * (16 if depth > 1 else 1)) // 8))
                 for c in range(nchunks):
                     out.append({"mol": mol, "nrows": nrows, "L": L, "depth": depth, "chunk": c, "of": nchunks})
-    out.sort(key=lambda s: -(s["L"] * s["depth"]))
+    if b.get("filters_len"):
+        # one column more, for the operations that keep several blocks of columns: a row that is all gap inside one kept
+        # block and has a gap in a later one needs four columns
+        L = b["filters_len"]
+        allrows = list(initial_rows("dna", 2, L))
+        nchunks = 16
+        for c in range(nchunks):
+            out.append({"mol": "dna", "nrows": 2, "L": L, "depth": 1, "chunk": c, "of": nchunks, "ops": "filters"})
+    out.sort(key=lambda s: -(s.get("L", 9) * s.get("depth", 9)))
     return out
 
 
 def run_shard(spec, acc):
+    if spec.get("part") == "long":
+        check_long(acc)
+        return
     allrows = list(initial_rows(spec["mol"], spec["nrows"], spec["L"]))
     for i, rows in enumerate(allrows):
         if i % spec["of"] == spec["chunk"]:
-            explore({"mol": spec["mol"], "rows": rows, "depth": spec["depth"]}, acc)
+            explore({"mol": spec["mol"], "rows": rows, "depth": spec["depth"], "ops": spec.get("ops")}, acc)
 
 
 def replay(case):
     from vf.kernel.runner import Acc
 
     acc = Acc()
+    if case.get("long"):
+        check_long(acc)
+        return [(s, r["cases"][0]["detail"]) for s, r in acc.failures.items()]
     mol, rows0 = case["mol"], dict((n, s) for n, s in case["rows"])
     array = case["cls"] == "ArrayAlignment"
     aln = make_aln(rows0, mol, array)
